@@ -64,6 +64,8 @@ typedef struct {
   size_t size;
   int type;
   int live;
+  void *caller[4];  /* return address of the allocating call; with FA_BT=1 in the environment
+                       three more frames (naming a leak) */
 } fa_blk_t;
 #define FA_TAB (1u << 16)
 static fa_blk_t fa_tab[FA_TAB];
@@ -182,9 +184,23 @@ static void *fa_raw_alloc(int type, size_t size) {
 #endif
 }
 
+static void *fa_cur_caller = NULL;
+static int fa_deep_bt = -1;
 static void *fa_register(void *p, int type, size_t size) {
   fa_blk_t *b = fa_slot(p, 1);
   if (!b) abort();
+  memset(b->caller, 0, sizeof(b->caller));
+  b->caller[0] = fa_cur_caller;
+  if (fa_deep_bt < 0) fa_deep_bt = getenv("FA_BT") != NULL;
+  if (fa_deep_bt) {
+    void *bt[FA_BT];
+    int n = backtrace(bt, FA_BT), k = 1;
+    for (int i = 0; i < n; i++)
+      if (bt[i] == fa_cur_caller) {
+        for (int j = i + 1; j < n && k < 4; j++) b->caller[k++] = bt[j];
+        break;
+      }
+  }
   b->id = fa_next_id++;
   b->size = size;
   b->type = type;
@@ -194,6 +210,7 @@ static void *fa_register(void *p, int type, size_t size) {
 }
 
 void *__wrap_coap_malloc_type(coap_memory_tag_t type, size_t size) {
+  fa_cur_caller = __builtin_return_address(0);
   if (fa_armed) fa_note_site((int)type, size, __builtin_return_address(0), 0);
   if (fa_should_fail((int)type, size, 0, __builtin_return_address(0))) {
     fa_ev("x", 0, 0);
@@ -236,6 +253,7 @@ void __wrap_coap_free_type(coap_memory_tag_t type, void *p) {
 }
 
 void *__wrap_coap_realloc_type(coap_memory_tag_t type, void *p, size_t size) {
+  fa_cur_caller = __builtin_return_address(0);
   if (fa_armed) fa_note_site((int)type, size, __builtin_return_address(0), 1);
   fa_blk_t *ob = p ? fa_slot(p, 0) : NULL;
   long oid = p ? (ob ? ob->id : -1) : 0;
